@@ -35,11 +35,16 @@ def violation(kind, case, detail, ctx):
     raise Violation(kind, case, detail)
 
 
+POSITIONAL = [4]       # how many leading documented parameters are passed positionally (set per case)
+
+
 def make(variant, start, end, mn, mx, inc, ext=False):
     import pregex.meta.essentials as es
+    from pbt import pat
+    values = {'start': start, 'end': end, 'min_decimal': mn, 'max_decimal': mx, 'is_extensible': ext}
     if variant == 'Decimal':
-        return es.Decimal(start, end, mn, mx, include_sign=inc, is_extensible=ext)
-    return getattr(es, variant)(start, end, mn, mx, is_extensible=ext)
+        values['include_sign'] = inc
+    return pat.call_documented(getattr(es, variant), values, POSITIONAL[0])
 
 
 def model(variant, inc, start, end, mn, mx, text):
@@ -95,6 +100,8 @@ def check_defaults(case, ctx):
 
 
 def check_case(case, ctx):
+    POSITIONAL[0] = case.get('positional', 4)
+    ctx.count(f'positional_args:{POSITIONAL[0]}')
     if case['mode'] == 'defaults':
         return check_defaults(case, ctx)
     variant, inc = case['variant'], case['include_sign']
@@ -209,10 +216,10 @@ def gen_case(draw):
         return {'mode': 'defaults', 'variant': variant, 'include_sign': False, 'kw': kw, 'candidates': draw(st.lists(c2, min_size=4, max_size=10))}
     if draw(st.integers(0, 3)) == 0:
         return {'mode': 'ext', 'variant': draw(st.sampled_from(['Decimal', 'UnsignedDecimal'])), 'include_sign': False, 'start': start,
-                'end': end, 'min': mn, 'max': mx, 'candidates': cands, 'prefix': draw(st.sampled_from(['id', 'x=', '#', 'No ', '('])),
+                'end': end, 'min': mn, 'max': mx, 'candidates': cands, 'positional': draw(st.sampled_from([0, 4, 6])), 'prefix': draw(st.sampled_from(['id', 'x=', '#', 'No ', '('])),
                 'suffix': draw(st.sampled_from(['', '', 'rad', ' m', ')', '%']))}
     return {'mode': 'match', 'variant': variant, 'include_sign': inc, 'start': start, 'end': end, 'min': mn, 'max': mx,
-            'candidates': cands}
+            'candidates': cands, 'positional': draw(st.sampled_from([0, 2, 4, 4, 5, 6]))}
 
 
 def shards(tier):
